@@ -51,6 +51,30 @@ CLAIMED = {
              'with write, come out exactly, also with a stored tag whose name occurs in the text.',
         ref='DESIGN.md 5 (C16)', note='bounds in evidence; escaped text has no leading blank on the first line / no trailing blanks',
         technique='symbolic execution of rustc MIR + SMT (z3, cvc5 cross-check), native replay'),
+    'C06': dict(
+        text='Bounded symbolic model checking of the real code: `preprocess` in Verify mode over symbolic sources and a fully symbolic existing '
+             'output (absent / any bytes of every length in the bound): Ok <=> exists and equals the reference build output; the FS-model '
+             'mutation log proves read-only behaviour; first pass in verify mode reports .txtpp-backed dependencies.',
+        ref='DESIGN.md 5 (C06)', note='bounds in evidence; FS contract model with 8 KiB BufReader; D1-D12', technique='symbolic execution of rustc MIR over symbolic FS pre-states + SMT (z3, cvc5 cross-check), native replay'),
+    'C07': dict(
+        text='Bounded symbolic model checking of the real code: histories build->clean, clean, build->clean->clean of the real `preprocess` on '
+             'symbolic sources (including erroneous ones) in the FS/process models: generated files removed, decoys and sources intact, no '
+             'Command ever constructed, nothing created, clean returns Ok.',
+        ref='DESIGN.md 5 (C07)', note='bounds in evidence; name-shape x.txtpp.txtpp is handled in C11', technique='symbolic execution of rustc MIR over symbolic FS pre-states + SMT (z3, cvc5 cross-check), native replay'),
+    'C08': dict(
+        text='2-safety on the real code: Build from a fully symbolic pre-state of the generated paths (absent / arbitrary bytes incl. invalid '
+             'UTF-8) vs Build from a clean tree: equal verdict, output and temp bytes; stale dependency outputs are rebuilt first '
+             '(first pass reports the dependency for all three source-name shapes).',
+        ref='DESIGN.md 5 (C08), 6 (F2 fixed)', note='bounds in evidence; SIGKILL over-approximated by arbitrary pre-states', technique='symbolic execution of rustc MIR over symbolic FS pre-states + SMT (z3, cvc5 cross-check), native replay'),
+    'C09': dict(
+        text='2-safety on the real code: InMemoryBuild vs Build from the same symbolic pre-state: equal verdict and final bytes; FS-model log: '
+             'an up-to-date output (--needed) / temp file (every mode) is not touched, a stale one is rewritten.',
+        ref='DESIGN.md 5 (C09)', note='bounds in evidence; -N flag mapping checked in C17 cli harness', technique='symbolic execution of rustc MIR over symbolic FS pre-states + SMT (z3, cvc5 cross-check), native replay'),
+    'C10': dict(
+        text='Monitor on the real code: all four modes, successful and failing sources, optional injected I/O fault, decoy files: every '
+             'mutating std::fs call logged by the FS model targets the output or a temp target; verify leaves the output alone; clean '
+             'creates nothing.',
+        ref='DESIGN.md 5 (C10)', note='bounds in evidence; input selection / directory scanning is C11', technique='symbolic execution of rustc MIR over symbolic FS pre-states + SMT (z3, cvc5 cross-check), native replay'),
 }
 
 PENDING_REASON = 'check not built yet in this revision (under construction, see DESIGN.md 9); nothing is claimed'
